@@ -17,7 +17,8 @@ RULE = ("(soundness) every node labelled encoding.base64 / decoded.hexadecimal /
         "payload as value; -bxor K for K in 0..999 next to both From*String forms and byte arrays: child present iff 1<=K<=255 and "
         "equal to payload ^ K, also for two conversions under one key and after a decoy buffer stating another key was scanned and "
         "released (identity-keyed state); completeness cases also run inside CreateObject( ... ) contexts, on a second scan, and "
-        "after decoy histories. distinct_nontrivial = distinct inputs with a judged node / case.")
+        "after decoy histories. Added after the blind seed rounds: every line-break spelling the base64 pattern names, every byte-array element / separator spelling, mixed-case FromHexString digits, zero-padded keys, xor payloads of 4095..70000 bytes, a 'big' shard with 3 kB..140 kB payloads in every form, expressions partially overlapped by a path, an earlier lone quote character, and every eighth case judged as the second of a pair of expressions in one text. "
+        "distinct_nontrivial = distinct inputs with a judged node / case.")
 ASSUMPTIONS = ["only the accepted side of each acceptance rule is asserted"]
 EXPECTED_WALL = {"quick": 50, "thorough": 400}
 REQUIRED = {"stacks_judged": 187, "c13_b64_bare": 37, "c13_b64_call": 62, "c13_hex_bare": 37, "c13_hex_call": 25, "c13_xor_single": 18,
